@@ -57,7 +57,7 @@ ADDSETS = {
     "counter": ["collections.Counter", "pickle.loads"],
 }
 # what else is armed on top of the ML environment while the probe runs
-OVERLAYS = ["none", "global-check", "context", "reactivated", "preloaded"]   # preloaded: an earlier activation that
+OVERLAYS = ["none", "global-check", "context", "reactivated", "preloaded", "failed-import-first"]   # preloaded: an earlier activation that
 #                                                   allowed everything really loaded the same payload, then was removed      # reactivated: another activation (with
 #                                                                     other additions) precedes, not removed
 
@@ -220,7 +220,23 @@ def run_case(ctx, mods, base, cache, chain, kind, final, entry, aname, overlay="
             hook.remove_hook()
             pickle.load, pickle.loads, _pickle.load, _pickle.loads = ORIG
             del vp_sink.LOG[:]
+    if overlay == "failed-import-first":
+        # the caller's additions also name globals that cannot be imported (module not installed, attribute gone);
+        # loads that fail on them come first - then the case's load, in the same activation
+        adds = list(adds) + ["vp_not_installed_mod.thing", "collections.NoSuchThingHere", "json.nonexistent_attr"]
     hook.activate_safe_ml_environment(also_allow=list(adds) if adds else None)
+    if overlay == "failed-import-first":
+        for blob in (b"cvp_not_installed_mod\nthing\n.", b"ccollections\nNoSuchThingHere\n.", b"\x80\x04\x8c\x04json\x8c\x10nonexistent_attr\x93.",
+                     b"cvp_not_installed_mod\nthing\n)R."):
+            for fn_ in (pickle.loads, _pickle.loads):
+                try:
+                    fn_(blob)
+                except BaseException:
+                    agg.count("failed_imports_before_the_case")
+            try:
+                pickle.load(io.BytesIO(blob))
+            except BaseException:
+                pass
     cm = None
     try:
         if overlay == "global-check":
